@@ -1,5 +1,6 @@
 """treeinfo: case descriptions, builder (public API only), snapshots, reference INI model, independent INI reader."""
 import configparser
+import copy
 import io
 import random
 
@@ -207,6 +208,30 @@ def build_ti(desc, plan=0):
                 else:
                     ti.checksums.checksums[path] = (ctype, cvalue)      # not normalised: assigned directly, kept verbatim
     return ti
+
+
+def modify_ti(desc, ti, k=0):
+    """a valid change of an EXISTING object through its public attributes (an object that is written, changed and written again);
+    returns the description of what the object holds afterwards"""
+    d = copy.deepcopy(desc)
+    arches = [a for a in ("x86_64", "i386", "ppc64le", "aarch64", "s390x") if a != d["tree"]["arch"]]
+    d["tree"]["arch"] = arches[k % len(arches)]
+    d["tree"]["build_timestamp"] = d["tree"]["build_timestamp"] + (2 if d["tree"]["build_timestamp"] == -1 else 1)      # 0 is refused as blank
+    ti.tree.arch, ti.tree.build_timestamp = d["tree"]["arch"], d["tree"]["build_timestamp"]
+    d["release"]["name"] = d["release"]["name"] + "x"
+    ti.release.name = d["release"]["name"]
+    tops = sorted(n["uid"] for n in d["variants"])
+    if len(tops) >= 2 and "0new" not in tops and not any(n["id"] == "0new" for n in d["variants"]):
+        # one top-level variant goes, another one (sorting first) comes: the count stays the same
+        gone = tops[-1]
+        del ti.variants[gone]
+        d["variants"] = [n for n in d["variants"] if n["uid"] != gone]
+        new = {"id": "0new", "uid": "0new", "name": "New", "type": "variant", "paths": {"packages": "p0", "repository": "r0"}, "children": []}
+        d["variants"].append(new)
+        attach(ti, ti.variants, [new], None, True)
+        if d.get("main_variant") == gone:
+            d["main_variant"] = None
+    return d
 
 
 def dump_text(ti, main_variant=None):
